@@ -83,7 +83,36 @@ func Load(repo, specDir string) (*Program, error) {
 		}
 	}
 	// index functions (including methods, closures, instantiations)
-	for fn := range ssautil.AllFunctions(prog) {
+	all := ssautil.AllFunctions(prog)
+	// methods of generic named types are not reachable from any method set: add them
+	// (and their closures) by hand
+	var addFn func(fn *ssa.Function)
+	addFn = func(fn *ssa.Function) {
+		if fn == nil || all[fn] {
+			return
+		}
+		all[fn] = true
+		for _, a := range fn.AnonFuncs {
+			addFn(a)
+		}
+	}
+	for _, sp := range p.Pkgs {
+		sc := sp.Pkg.Scope()
+		for _, n := range sc.Names() {
+			tn, ok := sc.Lookup(n).(*types.TypeName)
+			if !ok {
+				continue
+			}
+			named, ok := tn.Type().(*types.Named)
+			if !ok || named.TypeParams().Len() == 0 {
+				continue
+			}
+			for i := 0; i < named.NumMethods(); i++ {
+				addFn(prog.FuncValue(named.Method(i)))
+			}
+		}
+	}
+	for fn := range all {
 		if fn.Pkg == nil && fn.Origin() == nil && fn.Parent() == nil {
 			continue
 		}
